@@ -231,7 +231,7 @@ def check_queries(ci, acc=None):
                     problems.append("%s returns %s which lacks the arch (%s)" % (q, v.uid, sorted(v.arches)))
                 if types and v.type not in types:
                     problems.append("%s returns %s of type %s" % (q, v.uid, v.type))
-            if arch is None and types is None:
+            if arch in (None, "src") and types is None:         # (the pseudo-architecture 'src' matches every variant)
                 if sorted(uids) != sorted(v.uid for v in universe):
                     problems.append("%s = %s, expected every variant %s" % (q, uids, sorted(v.uid for v in universe)))
     if observe(ci) != before:
